@@ -100,7 +100,7 @@ theorem exbpmFold (tbl : Dict Bytes) : ∀ (ex : List (Bytes × Rat)) (acc : Dic
           exact ih ex' _ hrest
 
 /-- the `#WAVxx` loop: with no `#WAV…` name other than `#WAVxx`, the loop is the fold of the `#WAVxx` definitions -/
-theorem wavFold (tbl : Dict Bytes) (hw : ∀ kv ∈ tbl, wavLike kv.1 = true → (wavId kv.1).isSome = true) :
+theorem wavFold_book (tbl : Dict Bytes) (hw : ∀ kv ∈ tbl, wavLike kv.1 = true → (wavId kv.1).isSome = true) :
     ∀ (acc : Dict Bytes),
     tbl.foldl (fun d kv => if isWavKey kv.1 then dictSet d (kv.1.drop (kv.1.length - 2)) kv.2 else d) acc =
       (tbl.filterMap (fun kv => (wavId kv.1).map (fun id => (id, kv.2)))).foldl (fun d kv => dictSet d kv.1 kv.2) acc := by
@@ -220,7 +220,7 @@ theorem bookHeader_readHeader (tbl : Dict Bytes) (h : Header) (hb : bookHeader t
           simp only [bind, Except.bind]
           rw [hrestBPM]
           simp only [hpf]
-          rw [hd, wavFold tbl hw [], bookTable_eq_fold, bookTable_eq_fold, hmisc]
+          rw [hd, wavFold_book tbl hw [], bookTable_eq_fold, bookTable_eq_fold, hmisc]
 
 /-- **The specification's denotation — its own lexer, header table and header record — is the shared-semantics
 denotation `denote` of the same text**, and the reader's line loop and header reader produce exactly the
